@@ -12,6 +12,15 @@ CONSTANTS = {
         # fused sparse-filter copy of the BatchCoalescer: selected_count <= filter_len / DENOM
         ("SPARSE_FILTER_COPY_MAX_SELECTIVITY_DENOMINATOR", "arrow-select/src/coalesce.rs",
          r"const\s+SPARSE_FILTER_COPY_MAX_SELECTIVITY_DENOMINATOR\s*:\s*usize\s*=\s*([^;]+);", "int"),
+        # shape tie (no value): `masked_bytes` must hand a NULL value slot to the interner as `None`
+        # (`array.is_valid(idx).then_some(array.value(idx).as_ref())`), never the bytes under it.
+        # The group only captures whitespace, so the "list" is empty; if the expression changes the
+        # pattern no longer matches and the item goes LOST (bridge lemma `masked_bytes_null_aware`).
+        ("MASKED_BYTES_NULL_AWARE", "arrow-select/src/dictionary.rs",
+         r"fn\s+masked_bytes[\s\S]*?out\.push\(\(\s*idx\s*,\s*array\.is_valid\(idx\)\.then_some\(array\.value\(idx\)\.as_ref\(\)\)(\s*),?\s*\)\)", "intlist"),
+        # the same shape for primitive dictionary values
+        ("MASKED_PRIMITIVES_NULL_AWARE", "arrow-select/src/dictionary.rs",
+         r"fn\s+masked_primitives_to_bytes[\s\S]*?out\.push\(\(\s*idx\s*,\s*array\.is_valid\(idx\)\.then_some\(values\[idx\]\.to_byte_slice\(\)\)(\s*),?\s*\)\)", "intlist"),
     ],
 }
 FUNCTIONS = {}
